@@ -14,6 +14,7 @@ import os, sys, time, json, math
 from fractions import Fraction as Fr
 import vlib
 from vlib import Rng, fhex, unhex
+import c03_coupling
 
 PID = "C03"
 NAMESPACE = "Simu.C03"
@@ -26,7 +27,7 @@ THEOREMS = [
     "pair_step", "pair_same_displacement", "pair_momentum", "pair_force", "pair_same_displacement_n",
     "pair_step_ff", "pair_same_displacement_ff", "pair_momentum_ff", "pair_force_ff",
     "pairTopo_of_mutual", "onlySelf_of_noEntry", "onlySelf_springs",
-]
+] + c03_coupling.THEOREMS_COUPLING
 GEN = ["Integrator"]
 CONFIGS = [(cm, dm) for cm in (0, 1, 2) for dm in (0, 1)]
 STATIC_KINDS = (1, 4)
@@ -428,9 +429,10 @@ def run(ctx):
     for f in proof["failures"]:
         V.fail_tie("proof", "%s: %s" % (f["theorem"], f["reason"]), errors=proof["errors"][:5])
     if tier == "thorough" and proof["ok"]:
-        ok, log = vlib.leanchecker("SimuVerif.Properties.C03")
-        if not ok:
-            V.fail_tie("proof", "leanchecker rejected SimuVerif.Properties.C03", log=log)
+        for mod in ("SimuVerif.Properties.C03Base", "SimuVerif.Properties.C03Coupling"):
+            ok, log = vlib.leanchecker(mod)
+            if not ok:
+                V.fail_tie("proof", "leanchecker rejected %s" % mod, log=log)
     n = 250 if tier == "quick" else 4000
     if not proof["ok"]:
         n = max(n, 600)           # a proof broke: widen the search for a concrete failing input
@@ -513,6 +515,7 @@ def run(ctx):
                         if pc["disagreements"] <= 2:
                             V.fail_tie("correspondence", "CM=%d DM=%d model and implementation differ: %s" % (cm, dm, d), line=lines[i])
         stats["per_config"]["%d%d" % (cm, dm)] = pc
+    c03_coupling.coupling_pass_stage(V, tier, seed, stats)
     pipeline_stage(V, tier, seed, stats)
     rcode, nviol = V.finish()
     cov = {
@@ -520,7 +523,8 @@ def run(ctx):
         "checker_cmd": "lake build SimuVerif.Properties.C03 SimuVerif.Audit.C03 drv_c03 (+ lake env leanchecker in the thorough tier)",
         "trusted_base": vlib.TRUSTED_COMMON + [
             "hand-written loop/branch skeleton of Model/Integrator.lean (tied by the correspondence run only)",
-            "hook H1 (configuration override at the end of global_configuration.hpp)"],
+            "hook H1 (configuration override at the end of global_configuration.hpp)",
+            "hand-written model of the two tail loops of resolve_all_contacts (Model/CouplingPass.lean), tied by the correspondence run only"],
         "theorems": {k: v for k, v in proof["axioms"].items()},
         "proof_failures": proof["failures"],
         "translator": gen,
@@ -535,6 +539,7 @@ def run(ctx):
         "oracle_failures": stats["oracle_failures"], "per_config": stats["per_config"],
         "repo_objects_rebuilt": rebuilt_total, "samples": samples,
         "pipeline": stats.get("pipeline", {}),
+        "coupling_pass": stats.get("coupling_pass", {}),
         "pipeline_rule": "harness/h_coupling.cpp steps the REAL solver (default build: node-node coupling, overdamped) on the shipped "
                          "three-cell tissue (thorough: also with 4 threads and on generated pairs of touching epithelial cells) and "
                          "checks after every iteration that every coupling is mutual and that no live node of a non-static cell keeps "
@@ -548,6 +553,8 @@ def run(ctx):
         "mutual pairs: local ids equal list positions (solver invariant, C08)",
         "the sequential order of the loops is modelled; populations with only mutual couplings are also run with 2 and 4 threads",
         "kinetic-energy accumulators are not part of the property",
+        "coupling pass: cell/node local ids are list positions (C08; cell::set_local_ids); unused node slots carry no coupling (node::reset); "
+        "the contact SEARCH is not modelled: SearchOK summarises what it hands to the two loops (checked on real runs by the pipeline stage)",
     ], time.time() - t0, nviol)
     return rcode
 
@@ -556,6 +563,8 @@ def replay(ctx):
     rp = ctx["replay"]
     fi = rp.get("failing_input", {}).get("input", {})
     line = fi.get("line")
+    if fi.get("stage") == c03_coupling.STAGE:
+        return c03_coupling.replay(ctx)
     if fi.get("stage") == "pipeline":
         class _V:
             n = 0
